@@ -56,10 +56,14 @@ def cases(tier, seed):
                 for shots in (7,) if n == 3 else (1, 7):
                     yield {"backend": be, "noise": "SPAM", "n": n, "script": [list(masks[i]) for i in seqm], "shots": shots}
         for n in ns:
-            for noise in ("none", "relaxation", "amplitude", "detuning", "register"):
+            for noise in ("none", "relaxation", "amplitude", "detuning", "register", "eff_noise_only"):
                 if be == "mps" and noise == "relaxation" and n > 3:
                     continue
                 if tier == "quick" and be == "mps" and n == 4:
+                    continue
+                if noise == "eff_noise_only":
+                    if be == "mps" and n <= 3:
+                        yield {"backend": be, "noise": noise, "n": n, "script": [], "shots": 0}
                     continue
                 for shots in (1, 7, 100):
                     if shots == 100 and n > (2 if tier == "quick" else 3):
@@ -96,10 +100,13 @@ def run_case(case):
     elif noise == "detuning":
         nm = pulser.NoiseModel(detuning_sigma=2.0)
         script = {"normal": [[z] for z in case["script"] for _ in range(2)]}
+    elif noise == "eff_noise_only":
+        op = np.array([[0, 1], [0, 0]], dtype=complex)  # Pulser order (r, g): |r><g|, an excitation channel
+        nm = pulser.NoiseModel(eff_noise_opers=[op], eff_noise_rates=[8.0])
     elif noise == "register":
         nm = pulser.NoiseModel(temperature=50.0, trap_waist=1.0, trap_depth=150.0, disable_doppler=True)
         script = {"normal": [[z * 0.5, -z, 0.3 * z] for z in case["script"] for _ in range(2)]}
-    obs = [mod.Occupation(evaluation_times=ev), mod.CorrelationMatrix(evaluation_times=[1.0]), mod.Energy(evaluation_times=ev), mod.BitStrings(evaluation_times=[1.0], num_shots=shots)]
+    obs = [mod.Occupation(evaluation_times=ev), mod.CorrelationMatrix(evaluation_times=[1.0]), mod.Energy(evaluation_times=ev)] + ([mod.BitStrings(evaluation_times=[1.0], num_shots=shots)] if shots else [])
     kw = {"noise_model": nm} if nm is not None else {}
     backend_cls = sv.SVBackend if be == "sv" else m.MPSBackend
     captured = []
@@ -121,7 +128,8 @@ def run_case(case):
                 res = sv.SVBackend(seq, config=cfg).run()
             else:
                 cfg = m.MPSConfig(dt=10, precision=1e-8, observables=obs, n_trajectories=n, log_level=logging.CRITICAL, num_gpus_to_use=0, **kw)
-                with seams.module_random(impl_mod, seams.ScriptedRandom(default_uniform=0.35, default_choice=0)):
+                # jump thresholds differ from trajectory to trajectory (0.9 -> early jump, 0.1 -> none, ...): the trajectories are distinguishable
+                with seams.module_random(impl_mod, seams.ScriptedRandom(uniforms=[0.9, 0.5, 0.1, 0.7, 0.3, 0.8, 0.2, 0.6, 0.4, 0.95, 0.05] * 3, default_uniform=0.35, default_choice=0)):
                     res = m.MPSBackend(seq, config=cfg).run()
     except Exception as e:
         return result(False, sig=f"raises|{be}|{noise}|{type(e).__name__}", msg=f"{label}: {type(e).__name__}: {str(e)[:300]}", outcome="raise")
@@ -144,6 +152,8 @@ def run_case(case):
             differ = differ or any(np.abs(v - vals[0]).max() > 1e-9 for v in vals)
             if np.abs(got - mean).max() > 1e-10 * max(1.0, np.abs(mean).max()):
                 return result(False, sig=f"mean|{be}|{tag}", msg=f"{label}: aggregated {tag} at t={t} is {np.round(got, 8).tolist()} but the mean of the {n} trajectories is {np.round(mean, 8).tolist()}", outcome="mean")
+    if not shots:
+        return result(True, outcome=["ok-nobits", n, rnd(np.real(runner.to_np(runner.get_at(res, "occupation", 1.0))), 4)], transitions=n, nontrivial=bool(differ))
     bag = Counter()
     for c in captured:
         bag.update(runner.get_at(c, "bitstrings", 1.0))
